@@ -48,11 +48,19 @@ func zzHasPrefix(s, p []byte) bool {
 // command); m symbolic keys are typed one per read. The first command the real
 // dispatcher fires, and the key at which it fires, must be what the five rules of the
 // property say (reference resolver of DESIGN appendix A.1).
-// params: lens (e.g. "12" = two bindings of length 1 and 2), m
+// params: lens (e.g. "12" = two bindings of length 1 and 2), m, km (keymap whose table is
+// replaced and which is made the main one; default emacs), local (the table replaces this
+// local keymap instead, which is made active), mac ("1": the first binding is a
+// macro whose body is the second binding's sequence)
 func ZZ_C03_Dispatch() {
 	lens := zzverif.Param("lens")
 	m := zzverif.ParamInt("m")
 	T := len(lens)
+	km := zzverif.Param("km")
+	if km == "" {
+		km = "emacs"
+	}
+	mac := zzverif.Param("mac") == "1" && T >= 2
 
 	table := make([][]rune, T)
 	wire := make([][]byte, T)
@@ -67,6 +75,13 @@ func ZZ_C03_Dispatch() {
 	for i := 0; i < T; i++ {
 		for j := 0; j < i; j++ {
 			zzverif.Assume(string(wire[i]) != string(wire[j]))
+		}
+	}
+	if mac {
+		// the macro's keys form a binding that resolves at once (no longer binding extends
+		// it); otherwise its command depends on the keys typed after the macro
+		for t := 0; t < T; t++ {
+			zzverif.Assume(!(len(wire[t]) > len(wire[1]) && zzHasPrefix(wire[t], wire[1])))
 		}
 	}
 	keys := make([]byte, m)
@@ -111,10 +126,14 @@ func ZZ_C03_Dispatch() {
 
 	script := &zzverif.Script{}
 	rl := zzSession(script)
-	firedCmd, firedAt := -1, -1
+	firedCmd, firedAt, firedLo := -1, -1, -1
 	nfired := 0
-	var allCmd, allAt []int
-	delivered := 0
+	// a command is attributed to the read that was being consumed when it ran: keys
+	// [lo, at] (one key per read in emacs: lo == at)
+	var allCmd, allAt, allLo []int
+	delivered := 0 // keys handed over so far
+	lo := 0        // index of the first key of the read being consumed
+	chunk := 0
 	wait := 0
 	script.OnWait = func() {
 		if wait == 0 {
@@ -124,23 +143,50 @@ func ZZ_C03_Dispatch() {
 				t := t
 				name := "zzprobe" + string(rune('0'+t))
 				binds[string(table[t])] = inputrc.Bind{Action: name}
+				if mac && t == 0 {
+					// a macro: its keys are the second binding's sequence as typed
+					binds[string(table[t])] = inputrc.Bind{Action: string(wire[1]), Macro: true}
+				}
 				cmds[name] = func() {
 					nfired++
 					allCmd = append(allCmd, t)
 					allAt = append(allAt, delivered-1)
+					allLo = append(allLo, lo)
 					if firedCmd < 0 {
-						firedCmd, firedAt = t, delivered-1
+						firedCmd, firedAt, firedLo = t, delivered-1, lo
 					}
 				}
 			}
 			rl.Keymap.Register(cmds)
-			rl.Config.Binds["emacs"] = binds
-			for _, k := range keys {
-				script.Chunks = append(script.Chunks, []byte{k})
+			if local := zzverif.Param("local"); local != "" {
+				// the table is a local keymap's (consulted before the main one); the main keymap
+				// keeps a single binding that is never typed
+				rl.Config.Binds[local] = binds
+				rl.Config.Binds[km] = map[string]inputrc.Bind{"\x00": {Action: "zzprobe-none"}}
+				rl.Keymap.SetLocal(local)
+			} else {
+				rl.Config.Binds[km] = binds
+			}
+			if km != "emacs" {
+				rl.Keymap.SetMain(km)
+			}
+			var cur []byte
+			for i, k := range keys {
+				cur = append(cur, k)
+				// in the vi keymaps and in local keymaps a lone ESC (leave insert mode, cancel the
+				// local mode) is told from an ESC prefix by timing only: there ESC arrives in
+				// the same read as the key that follows it
+				if (km != "emacs" || zzverif.Param("local") != "") && k == 0x1b && i+1 < len(keys) {
+					continue
+				}
+				script.Chunks = append(script.Chunks, cur)
+				cur = nil
 			}
 		}
 		if script.Remaining() > 0 {
-			delivered++
+			lo = delivered
+			delivered += len(script.Chunks[chunk])
+			chunk++
 		}
 		wait++
 
@@ -174,42 +220,63 @@ func ZZ_C03_Dispatch() {
 	// typed, ending at the key at which it fires, or one key earlier (a shorter binding firing
 	// when the next key ruled the longer ones out)
 	for i := range allCmd {
-		w := wire[allCmd[i]]
-		at := allAt[i]
 		ok := false
-		for s := 0; s <= at && !ok; s++ {
-			// exact: the sequence ends at the key at which the command fires
-			if at-s+1 == len(w) && string(keys[s:at+1]) == string(w) {
-				ok = true
-				break
+		for at := allLo[i]; at <= allAt[i] && !ok; at++ {
+			ws := [][]byte{wire[allCmd[i]]}
+			if mac && allCmd[i] == 1 {
+				// the macro's own sequence justifies the command its keys are bound to
+				ws = append(ws, wire[0])
 			}
-			// shortened: the sequence was typed from s, the keys after it kept a longer
-			// binding alive up to the key before `at`, and the key at `at` ruled it out
-			e := s + len(w) - 1
-			if e < at && string(keys[s:e+1]) == string(w) {
-				alive := false
-				for t := 0; t < T; t++ {
-					if len(wire[t]) > at-s && zzHasPrefix(wire[t], keys[s:at]) {
-						alive = true
+			for _, w := range ws {
+				for s := 0; s <= at && !ok; s++ {
+					// exact: the sequence ends at the key at which the command fires
+					if at-s+1 == len(w) && string(keys[s:at+1]) == string(w) {
+						ok = true
+						break
 					}
-				}
-				dead := true
-				for t := 0; t < T; t++ {
-					if zzHasPrefix(wire[t], keys[s:at+1]) {
-						dead = false
+					// shortened: the sequence was typed from s, the keys after it kept a longer
+					// binding alive up to the key before `at`, and the key at `at` ruled it out
+					e := s + len(w) - 1
+					if e < at && string(keys[s:e+1]) == string(w) {
+						alive := false
+						for t := 0; t < T; t++ {
+							if len(wire[t]) > at-s && zzHasPrefix(wire[t], keys[s:at]) {
+								alive = true
+							}
+						}
+						dead := true
+						for t := 0; t < T; t++ {
+							if zzHasPrefix(wire[t], keys[s:at+1]) {
+								dead = false
+							}
+						}
+						if alive && dead {
+							ok = true
+						}
 					}
-				}
-				if alive && dead {
-					ok = true
 				}
 			}
 		}
 		zzverif.Assert(ok, "no-command-bound-to-a-different-sequence"+sfx)
 	}
-	if wantCmd >= 0 {
+	if mac && wantCmd == 0 {
+		// "a sequence bound to a macro behaves as if the macro's keys had been typed": when
+		// those keys are a complete binding that nothing extends, its command runs, at the key
+		// that completed the macro's sequence
+		extended := false
+		for t := 0; t < T; t++ {
+			if len(wire[t]) > len(wire[1]) && zzHasPrefix(wire[t], wire[1]) {
+				extended = true
+			}
+		}
+		if !extended {
+			zzverif.Reach("macro-fires")
+			zzverif.Assert(firedCmd == 1 && firedLo <= wantAt && wantAt <= firedAt, "macro-runs-as-if-its-keys-were-typed"+sfx)
+		}
+	} else if wantCmd >= 0 {
 		zzverif.Reach("some-binding-fires")
 		zzverif.Assert(firedCmd == wantCmd, "bound-sequence-runs-its-command"+sfx)
-		zzverif.Assert(firedCmd != wantCmd || firedAt == wantAt, "command-runs-when-its-last-key-arrives"+sfx)
+		zzverif.Assert(firedCmd != wantCmd || (firedLo <= wantAt && wantAt <= firedAt), "command-runs-when-its-last-key-arrives"+sfx)
 	} else {
 		// later keys start new attempts, which may legitimately fire
 		zzverif.Assert(firedCmd < 0 || firedAt > endAt, "no-command-for-unbound-or-prefix-keys"+sfx)
